@@ -5,6 +5,7 @@ import (
 	"go/ast"
 	"go/token"
 	"go/types"
+	"regexp"
 	"sort"
 	"strings"
 
@@ -43,6 +44,7 @@ func instanceDescFields(pkg *packages.Package) (*types.Named, []*types.Var) {
 func runC13(c *core.Ctx) {
 	c.Rule("R1", "every InstanceDesc field is CMP, VOL or DERIVED for the equality shortcut; VOL = fields refreshed into cached subrings (both getters)", 10)
 	c.Rule("R2", "index builders and shard membership read no volatile field", 8)
+	c.Rule("R8", "a topology change replaces every derived Ring field unconditionally", 1)
 	c.Rule("R7", "the token→instance map shared with subrings is immutable (replaced, never modified, never handed out)", 1)
 	c.Rule("R3", "index replacement resets both caches and the topology stamp; cache fills guarded by stamp equality", 4)
 	c.Rule("R4", "cache keys are complete and agree between getter and setter", 4)
@@ -65,6 +67,7 @@ func runC13(c *core.Ctx) {
 	c13Partition(c, pkg)
 	c13Validity(c, pkg)
 	c13ImmutableIndex(c, pkg, "R7")
+	c13RefreshAll(c, pkg, "R8")
 }
 
 // c13Classify extracts the class of every field from RingCompare / setInstanceIDs.
@@ -881,4 +884,110 @@ func c13ImmutableIndex(c *core.Ctx, pkg *packages.Package, R string) {
 		return
 	}
 	c.Check(assigns >= 1 && reads >= 3, R, "field=Ring.ringInstanceByToken:immutable", pkg.Syntax[0].Pos(), fmt.Sprintf("%d assignments (fresh map from getTokensInfo() or shared from a Ring), %d read-only uses; no element store, delete, clear, alias, address-of or hand-over to a function", assigns, reads), assigns+reads)
+}
+
+// c13RefreshAll: every Ring field assigned by setRingStateFromDesc (and by the same-type helpers it
+// calls) is assigned on *every* path of that function — the derived indexes (tokens, zones, per-zone
+// counters …) are all replaced together on a topology change. The only accepted conditions are a bool
+// parameter of the function (the caller-controlled refresh flags) and the nil test of the field being
+// reset (caches disabled in tests). A field that is refreshed only "when something changed" makes the
+// answers depend on the update history (shared by C13.R8 and C12.R8).
+func c13RefreshAll(c *core.Ctx, pkg *packages.Package, R string) {
+	root := an.FindFunc(pkg, "Ring.setRingStateFromDesc")
+	if root == nil {
+		c.Miss(R, "func=Ring.setRingStateFromDesc", "not found")
+		return
+	}
+	fns := []*an.Fn{root}
+	for _, call := range root.Calls(false) {
+		if f := call.Func(); f != nil && f.Pkg() == pkg.Types {
+			if sel, ok := call.Expr.Fun.(*ast.SelectorExpr); ok && root.Canon(sel.X) == "recv" {
+				if h := an.FindFunc(pkg, an.FuncDisplay(f)); h != nil {
+					// the helper itself must be called on every path
+					ex := root.Graph().Exec(root.Graph().EntryLoc(), []an.Loc{root.Graph().Locate(call.Expr)}, func(ast.Expr, an.Store) an.Tri { return an.U }, an.ExecOpts{IgnorePanic: true})
+					hasAssign := false
+					h.InspectShallow(func(n ast.Node) bool {
+						if as, ok := n.(*ast.AssignStmt); ok {
+							for _, l := range as.Lhs {
+								if strings.HasPrefix(h.Canon(l), "recv.") && !strings.Contains(strings.TrimPrefix(h.Canon(l), "recv."), ".") {
+									hasAssign = true
+								}
+							}
+						}
+						return true
+					})
+					if hasAssign {
+						if !ex.Must[0] && !condIsFlag(root, call.Expr) {
+							c.Viol(R, "refresh:call="+h.Name, call.Expr.Pos(), "helper that assigns Ring fields is not called on every path of setRingStateFromDesc")
+						}
+						fns = append(fns, h)
+					}
+				}
+			}
+		}
+	}
+	n := 0
+	var bad []string
+	var badPos token.Pos
+	for _, fn := range fns {
+		c.Analysed(fn.String())
+		g := fn.Graph()
+		fn.InspectShallow(func(nd ast.Node) bool {
+			as, ok := nd.(*ast.AssignStmt)
+			if !ok {
+				return true
+			}
+			for _, l := range as.Lhs {
+				lc := fn.Canon(l)
+				if !strings.HasPrefix(lc, "recv.") || strings.ContainsAny(strings.TrimPrefix(lc, "recv."), ".[") {
+					continue
+				}
+				n++
+				ex := g.Exec(g.EntryLoc(), []an.Loc{g.Locate(as)}, func(ast.Expr, an.Store) an.Tri { return an.U }, an.ExecOpts{IgnorePanic: true})
+				if ex.Must[0] {
+					continue
+				}
+				if condIsFlag(fn, as) {
+					continue
+				}
+				bad = append(bad, fmt.Sprintf("%s: %s is not assigned on every path", fn.Name, lc))
+				badPos = as.Pos()
+			}
+			return true
+		})
+	}
+	if len(bad) > 0 {
+		c.Viol(R, "refresh:all-fields", badPos, strings.Join(bad, "; "))
+		return
+	}
+	c.Check(n >= 10, R, "refresh:all-fields", root.Pos(), fmt.Sprintf("%d Ring field assignments in setRingStateFromDesc and its helpers are unconditional, or conditional only on a bool parameter / on the nil test of the field itself", n), n)
+}
+
+// condIsFlag: node n lies directly in an if whose condition is a bool parameter of fn, or the nil test
+// of a receiver field (`if recv.f != nil { recv.f = … }`), and that if is itself reached on every path.
+func condIsFlag(fn *an.Fn, n ast.Node) bool {
+	var found *ast.IfStmt
+	fn.InspectShallow(func(m ast.Node) bool {
+		if is, ok := m.(*ast.IfStmt); ok && an.InNode(is.Body, n) {
+			found = is // innermost wins (visited last)
+		}
+		return true
+	})
+	if found == nil || found.Else != nil || found.Init != nil {
+		return false
+	}
+	cc := fn.Canon(found.Cond)
+	flag := regexp.MustCompile(`^p\d+$`).MatchString(cc)
+	if v, ok := fn.ObjOf(found.Cond).(*types.Var); flag && ok {
+		if b, ok := v.Type().Underlying().(*types.Basic); !ok || b.Kind() != types.Bool {
+			flag = false
+		}
+	}
+	nilTest := regexp.MustCompile(`^\(recv\.\w+ != nil\)$`).MatchString(cc)
+	if !flag && !nilTest {
+		return false
+	}
+	g := fn.Graph()
+	ex := g.Exec(g.EntryLoc(), []an.Loc{g.Locate(found.Cond)}, func(ast.Expr, an.Store) an.Tri { return an.U }, an.ExecOpts{IgnorePanic: true})
+	return ex.Must[0]
 }
